@@ -379,3 +379,22 @@ def run(ctx, col: Collector):
                 col.obs.append(type(o)(col.prop, 'C15-flag', 'route:' + o.construct, o.status, o.msg, o.file, o.line, o.extra))
         col.floor('C15-flag', 'entry-route hops carrying allow_properties', n, 4)
     guarded(col, 'C15-flag', 'entry-hops', entry_hops)
+
+    def instance_state():
+        # the option is a property of ONE parser: anything the parser package writes into class-level / module-level state while it is
+        # being set up outlives that parser, so the syntax of a later parser depends on the options of an earlier one (rule shared with C11)
+        sub = ctx.sub('c11', col.prop)
+        n = bad = 0
+        for o in sub.obs:
+            if o.rule != 'C11-shared' or not (o.file or '').startswith('pydbml/parser/'):
+                continue
+            n += 1
+            if o.status == 'refuted':
+                bad += 1
+                col.obs.append(type(o)(col.prop, 'C15-flag', 'instance-state:' + o.construct, o.status,
+                                       o.msg + ' - the grammar selected by allow_properties then leaks from one parser to the next', o.file, o.line, o.extra))
+        if any(o.rule == 'C11-shared' and o.status == 'unrecognised' for o in sub.obs):
+            col.unk('C15-flag', 'instance-state', 'the shared-state scan of the parser package is undecided')
+        elif not bad:
+            col.ok('C15-flag', 'instance-state', 'nothing in pydbml/parser writes class-level or module-level state at run time: the selected grammar is per parser')
+    guarded(col, 'C15-flag', 'instance-state', instance_state)
